@@ -22,6 +22,27 @@ ALLOWED_AXIOMS = {
 }
 
 
+MAIN_COQ = COQ
+
+
+def use_repo(repo):
+    """Checks of an alternate repository copy (mutation testing) work in a private copy of coq/ so that the
+    generated files of the main tree are never disturbed."""
+    global COQ
+    if os.path.abspath(repo) == '/repo':
+        COQ = MAIN_COQ
+        return
+    import repo as repolib
+    d = os.path.join(BUILD, 'coq-' + repolib.tag_for(repo))
+    os.makedirs(d, exist_ok=True)
+    subprocess.run(['rsync', '-a', '--delete', '--exclude', 'Gen/', MAIN_COQ + '/', d + '/'], check=True)
+    COQ = d
+
+
+def lockname():
+    return '.coq.lock' if COQ == MAIN_COQ else '.coq-%s.lock' % os.path.basename(COQ)
+
+
 class Lock:
     def __init__(self, name):
         os.makedirs(BUILD, exist_ok=True)
@@ -80,7 +101,17 @@ def regenerate(repo='/repo'):
     import gen
     import importlib
     importlib.reload(gen)
-    return gen.generate(repo)
+    return gen.generate(repo, outdir=os.path.join(COQ, 'Gen'))
+
+
+def shared_targets():
+    """files every property may depend on; built under the lock so that concurrent checks never compile them twice"""
+    out = []
+    for d in ('Base', 'Gen'):
+        dd = os.path.join(COQ, d)
+        if os.path.isdir(dd):
+            out += [os.path.join(d, f) + 'o' for f in sorted(os.listdir(dd)) if f.endswith('.v')]
+    return out
 
 
 def make(targets, timeout=1800):
@@ -159,7 +190,7 @@ def parse_assumptions(log):
             cur = []
             blocks.append(cur)
         elif cur is not None:
-            m = re.match(r'^([A-Za-z_][A-Za-z0-9_\.\']*)\s*:', line)
+            m = re.match(r'^([A-Za-z_][A-Za-z0-9_\.\']*)\s*(:.*)?$', line)
             if m:
                 cur.append(m.group(1))
             elif line and not line.startswith(' '):
@@ -171,10 +202,13 @@ def prove(prop_id, repo='/repo', timeout=1800):
     """Regenerate, build and check Properties_<id>.v.  Returns dict with the outcome."""
     t0 = time.time()
     res = {'ok': False, 'stage': None, 'log': '', 'theorems': [], 'axioms': [], 'obligations': 0, 'discharged': 0}
-    with Lock('.coq.lock'):
+    use_repo(repo)
+    with Lock(lockname()):
         gen_report = regenerate(repo)
         res['translator'] = gen_report
         write_project()
+        make(shared_targets(), timeout)
+    if True:
         pf = os.path.join('Properties', 'Properties_%s.v' % prop_id)
         deps = deps_of(pf)
         res['files'] = deps
@@ -247,12 +281,16 @@ def extract_deps(ex):
 def build_model_driver(prop_id, repo='/repo'):
     """Extract coq/Extract/Extract_<id>.v (from the model regenerated/rebuilt against `repo`) and build
     ocaml/drv_<id>.ml against it. Returns exe path."""
-    with Lock('.coq.lock'):
-        odir = os.path.join(BUILD, 'ocaml', prop_id)
-        os.makedirs(odir, exist_ok=True)
-        ex = os.path.join(COQ, 'Extract', 'Extract_%s.v' % prop_id)
+    use_repo(repo)
+    import repo as repolib
+    with Lock(lockname()):
         regenerate(repo)
         write_project()
+        make(shared_targets(), 1800)
+    with Lock('.ocaml-%s-%s.lock' % (prop_id, repolib.tag_for(repo))):
+        odir = os.path.join(BUILD, 'ocaml', prop_id if COQ == MAIN_COQ else prop_id + '-' + repolib.tag_for(repo))
+        os.makedirs(odir, exist_ok=True)
+        ex = os.path.join(COQ, 'Extract', 'Extract_%s.v' % prop_id)
         ok, log = make(extract_deps(ex), 1800)
         if not ok:
             raise RuntimeError('model files do not build: ' + log[-3000:])
